@@ -192,6 +192,33 @@ func init() {
 	}})
 }
 
+func init() {
+	families = append(families, family{"two chains of n fragments compared first below same-key fields of two object types, then side by side", func(n int) string {
+		var b strings.Builder
+		b.WriteString("{ node { ... on T1 { o: self { ...P1 } } ... on T2 { o: self { ...Q1 } } } t { ...P1 ...Q1 } }")
+		for i := 1; i <= n; i++ {
+			if i == n {
+				fmt.Fprintf(&b, " fragment P%d on T1 { id } fragment Q%d on T1 { a }", i, i)
+				continue
+			}
+			fmt.Fprintf(&b, " fragment P%d on T1 { id ...P%d } fragment Q%d on T1 { a ...Q%d }", i, i+1, i, i+1)
+		}
+		return b.String()
+	}})
+	families = append(families, family{"two chains of n fragments through a field, compared side by side first and below same-key fields of two object types afterwards", func(n int) string {
+		var b strings.Builder
+		b.WriteString("{ t { ...P1 ...Q1 } node { ... on T1 { o: self { ...P1 } } ... on T2 { o: self { ...Q1 } } } }")
+		for i := 1; i <= n; i++ {
+			if i == n {
+				fmt.Fprintf(&b, " fragment P%d on T1 { id } fragment Q%d on T1 { a }", i, i)
+				continue
+			}
+			fmt.Fprintf(&b, " fragment P%d on T1 { id self { ...P%d } } fragment Q%d on T1 { a self { ...Q%d } }", i, i+1, i, i+1)
+		}
+		return b.String()
+	}})
+}
+
 type hooks struct{ g *gen.Schema }
 
 func (h hooks) OutcomeAt(string) model.Outcome { return model.OK }
@@ -411,7 +438,7 @@ func run(c *core.Ctx) {
 // combine merges two single-operation documents: selections of b's operation are appended
 // to a's (fragment and variable names are made disjoint).
 func combine(a, b string) string {
-	b = strings.NewReplacer("F", "G", "...D", "...E", "fragment D", "fragment E", "...A", "...AA", "fragment A", "fragment AA", "...B", "...BB", "fragment B", "fragment BB", "$v", "$w").Replace(b)
+	b = strings.NewReplacer("F", "G", "...D", "...E", "fragment D", "fragment E", "...A", "...AA", "fragment A", "fragment AA", "...B", "...BB", "fragment B", "fragment BB", "...P", "...PP", "fragment P", "fragment PP", "...Q", "...QQ", "fragment Q", "fragment QQ", "$v", "$w").Replace(b)
 	b = strings.Replace(b, "{ f(in:", "{ fb: f(in:", 1)
 	ha, ra := splitOp(a)
 	hb, rb := splitOp(b)
